@@ -32,4 +32,4 @@ Deliverables in {out}/ :
   2. demo.py     - a small standalone program (run as: PYTHONPATH=<tree> /venv/bin/python demo.py) that exits 0 and prints PASS on the unmodified tree and exits 1 and prints FAIL (with a short explanation) on the modified tree. It must check the property's own terms (e.g. compare against the PyTorch reference / an exact oracle), not an implementation detail.
   3. meta.json   - {{"property": "{pid}", "summary": "<one paragraph: what was changed>", "needs": "<what specific input/sequence/configuration is needed for the violation to manifest>", "tests_run": "<the commands you ran and their results>"}}
 
-Verify (c) yourself: run demo.py against the modified tree (must FAIL) and against a clean checkout (use `git -C {wt} stash` / `git -C {wt} stash pop`; must PASS). Confirm the full test suite result with your change applied. Use /venv/bin/python (it has torch and the library's dependencies). There is no network. Keep CPU use modest (set OMP_NUM_THREADS=4). When done, reply with a short summary of the change, what is needed to trigger it, and the test results.""")
+Verify (c) yourself: run demo.py against the modified tree (must FAIL) and against a clean tree (must PASS). Do NOT use `git stash` (the stash is shared between worktrees and other people work concurrently): instead save your change with `git -C {wt} diff > {out}/patch.diff`, clean with `git -C {wt} checkout -- .`, run the demo, then re-apply with `git -C {wt} apply {out}/patch.diff`. Confirm the full test suite result with your change applied. Use /venv/bin/python (it has torch and the library's dependencies). There is no network. Keep CPU use modest (set OMP_NUM_THREADS=4). When done, reply with a short summary of the change, what is needed to trigger it, and the test results.""")
